@@ -83,7 +83,7 @@ def rule_TR2(rep, prog):
     for f2 in prog.all_functions():
         for i in f2.all_insts():
             if (prog.fields(i) & PD) and i.op in ("store", "atomicrmw", "cmpxchg"):
-                rep.require(rid, i.origin in PENDING_WRITERS, i.loc, i.origin, "unclassified-pending-writer:%s" % i.origin,
+                rep.classified(rid, i.origin, i.origin in PENDING_WRITERS, i.loc, i.origin, "unclassified-pending-writer:%s" % i.origin,
                             "%s writes ds_pending_data but is not a classified writer (a second consumer or an unsynchronised producer breaks coalescing)" % i.origin,
                             sample={"writer": i.origin, "role": PENDING_WRITERS.get(i.origin)})
     # client-visible value is not truncated unless the source type has extended status
